@@ -253,6 +253,14 @@ func TestC12Signer(t *testing.T) {
 			rec.Sample(c)
 		}
 		if sig, err := c12SignerRun(c); err != nil {
+			// the conversation is deterministic (one caller, a scripted server): a verdict that the very same case does not
+			// reproduce three more times in a row is not evidence against the library - it is reported as inconclusive
+			for k := 0; k < 3; k++ {
+				if sig2, err2 := c12SignerRun(c); err2 == nil || sig2 != sig {
+					rec.Fail(rt, name, "harness-not-reproducible:"+sig, fmt.Errorf("the same case passed when it was run again (%d); first verdict: %w", k+1, err), c)
+					return
+				}
+			}
 			rec.Fail(rt, name, sig, err, c)
 		}
 	})
